@@ -27,6 +27,19 @@ theorem step_now (cfg : Nat → LockCfg) (st : St) (op : Op) :
     (step cfg st op).1.store.now = st.store.now + elapsed [op] := by
   cases op <;> simp [step, elapsed, acquire, acquireWith_now, release_now, Store.advance]
 
+theorem step_grace (cfg : Nat → LockCfg) (st : St) (op : Op) :
+    (step cfg st op).1.store.grace = st.store.grace := by
+  cases op <;> simp [step, acquire, acquireWith_grace, release_grace, Store.advance]
+
+theorem run_grace (cfg : Nat → LockCfg) (ops : List Op) : ∀ st : St,
+    (run cfg st ops).store.grace = st.store.grace := by
+  induction ops with
+  | nil => intro st; rfl
+  | cons op ops ih =>
+    intro st
+    simp only [run, List.foldl_cons]
+    exact (ih _).trans (step_grace cfg st op)
+
 theorem run_now (cfg : Nat → LockCfg) (ops : List Op) : ∀ st : St,
     (run cfg st ops).store.now = st.store.now + elapsed ops := by
   induction ops with
@@ -129,7 +142,7 @@ theorem leaseInv_run (cfg : Nat → LockCfg) (hd : DistinctIds cfg) (i u : Nat) 
 /-- right after a successful Acquire the lease invariant holds with `u = now + lease`. -/
 theorem leaseInv_after_acquire (cfg : Nat → LockCfg) (st : St) (i secs : Nat)
     (h : (acquireWith cfg st i secs).2 = true) :
-    LeaseInv cfg i (st.store.now + leaseMs secs) (acquireWith cfg st i secs).1 := by
+    LeaseInv cfg i (st.store.now + leaseMs secs + st.store.grace) (acquireWith cfg st i secs).1 := by
   left
   rw [acquireWith_ent]
   simp [(acquireWith_result cfg st i secs).1 h]
@@ -141,9 +154,10 @@ def grun (cfg : Nat → LockCfg) : St → Belief → List Op → St × Belief
   | st, b, [] => (st, b)
   | st, b, op :: ops => grun cfg (step cfg st op).1 (b.step st.store.now st.secs op (step cfg st op).2) ops
 
-/-- whoever believes (unexpired) to hold a key is what Redis has under that key, with exactly that expiry -/
+/-- whoever believes (unexpired) to hold a key is what Redis has under that key, with exactly that expiry
+(the key outlives the believed lease by the store's `grace`) -/
 def BeliefInv (cfg : Nat → LockCfg) (st : St) (b : Belief) : Prop :=
-  ∀ i u, b i = some u → st.store.now < u → st.store.ent (cfg i).key = some ⟨(cfg i).id, some u⟩
+  ∀ i u, b i = some u → st.store.now < u → st.store.ent (cfg i).key = some ⟨(cfg i).id, some (u + st.store.grace)⟩
 
 theorem beliefInv_acquireWith (cfg : Nat → LockCfg) (hd : DistinctIds cfg) (st : St) (b : Belief) (j secs : Nat)
     (h : BeliefInv cfg st b) :
@@ -152,19 +166,20 @@ theorem beliefInv_acquireWith (cfg : Nat → LockCfg) (hd : DistinctIds cfg) (st
   by_cases hf : freeFor st.store (cfg j).key (cfg j).id
   · have hr : (acquireWith cfg st j secs).2 = true := (acquireWith_result _ _ _ _).2 hf
     intro i u hb hl
-    simp only [hr, if_true, acquireWith_now, acquireWith_ent] at hb hl ⊢
+    simp only [hr, if_true, acquireWith_now, acquireWith_ent, acquireWith_grace] at hb hl ⊢
     by_cases hij : i = j
     · subst hij
       simp only [updB, if_true] at hb
       simp only [hf, and_self, if_true]
       have : leaseMs secs = secs * 1000 + 500 := rfl
       rw [this]
-      simpa using hb
+      have hb' : st.store.now + (secs * 1000 + 500) = u := by simpa using hb
+      rw [hb']
     · simp only [updB, hij, if_false] at hb
       have he := h i u hb hl
       by_cases hk : (cfg i).key = (cfg j).key
       · have hid : (cfg i).id ≠ (cfg j).id := fun c => hij (hd i j hk c)
-        have hg := get_of_ent_live he hl
+        have hg := get_of_ent_live he (by omega)
         rw [hk] at hg
         rcases hf with hf | hf <;> simp [hg] at hf
         exact absurd hf hid
@@ -189,14 +204,14 @@ theorem beliefInv_step (cfg : Nat → LockCfg) (hd : DistinctIds cfg) (st : St) 
   | acquireS j secs => exact beliefInv_acquireWith cfg hd st b j secs h
   | release j =>
     intro i u hb hl
-    simp only [step, Belief.step, release_now, release_ent] at hb hl ⊢
+    simp only [step, Belief.step, release_now, release_ent, release_grace] at hb hl ⊢
     by_cases hij : i = j
     · subst hij; simp [updB] at hb
     · simp only [updB, hij, if_false] at hb
       have he := h i u hb hl
       by_cases hk : (cfg i).key = (cfg j).key
       · have hid : (cfg i).id ≠ (cfg j).id := fun c => hij (hd i j hk c)
-        have hg := get_of_ent_live he hl
+        have hg := get_of_ent_live he (by omega)
         rw [hk] at hg
         have : ¬ holds cfg st j := by
           unfold holds; rw [hg]; simpa using hid
@@ -216,7 +231,7 @@ theorem believes_holds (cfg : Nat → LockCfg) (st : St) (b : Belief) (h : Belie
   | none => simp [hbi] at hb
   | some u =>
     simp [hbi] at hb
-    exact get_of_ent_live (h i u hbi hb) hb
+    exact get_of_ent_live (h i u hbi hb) (by omega)
 
 theorem grun_fst (cfg : Nat → LockCfg) (ops : List Op) : ∀ st b, (grun cfg st b ops).1 = run cfg st ops := by
   induction ops with
